@@ -1604,6 +1604,10 @@ func (idx *MergeSetIndex) ClearCache() error {
 		return nil
 	}
 	idx.logger.Info("ClearCache", zap.String("path", idx.path))
+	// Series created since the last background flush of the table are not searchable
+	// yet and can only be found through the cache. Make them searchable before the
+	// cache is dropped, otherwise the next write of such a series creates a second id.
+	idx.tb.DebugFlush()
 	if err := idx.cache.reset(); err != nil {
 		return err
 	}
